@@ -218,6 +218,8 @@ def run(case, ctx):
         # ---- schemas
         for i, s in enumerate(case["schemas"]):
             site = {"item": "schema", "kind": s["kind"], "fault": s.get("fault") or "none", **({"coinciding_class_names": True} if dup_schema else {})}
+            if any(o is not s and o.get("inline_child") and _norm(o["name"] + o["inline_child"]) == _norm(s["name"]) for o in case["schemas"]):
+                site["clashes_with_inline_child_class"] = True   # Parent + child property -> the same class name as this component
             ctx.evals()
             if s["kind"] == "object":
                 found = [k for k, v in model_files.items() if s["marker"] in v]
